@@ -34,7 +34,14 @@ def check(prop, tier, only):
         for s in range(gshards):
             jobs.append(checks.J("h_joint_x", cfg, f"--mode grow --part {s} --of {gshards} --depth {gdepth}",
                                  name=f"joint/grow/shard{s}of{gshards}/depth{gdepth}[{cfg}]"))
-    note = ("Real joint_ptr/joint_allocator/joint_array code driven through generated joint types (3 member layouts: "
+    # every way a joint_ptr lets go of its object, for joint types that never touch their joint memory as well, compiled with -O2
+    # (the harness's ledger keeps the block address from escaping: found D28, reset() reading the destroyed object)
+    for cfg in cfgs:
+        jobs.append(checks.J("h_jointlife", cfg, "", name=f"joint/release-paths-O2[{cfg}]"))
+    note = ("Every release path of joint_ptr (reset, destructor, move assignment from empty / from another object, move construction, clone, "
+            "swap) x joint types that use / never touch their joint memory x additional size 0..160/1024, compiled with -O2: block given back "
+            "once with its size and alignment. "
+            "Real joint_ptr/joint_allocator/joint_array code driven through generated joint types (3 member layouts: "
             "two joint_arrays; joint_array + vector<_, joint_allocator>; vector first + joint_array; 15 x 15 element "
             "(size, alignment) pairs from {1,2,4,8,16}^2 with size a multiple of the alignment). Oracle per step: the "
             "instrumented upstreams A and B (blocks between guard bytes, A places blocks at 0 mod 16, B at 8 mod 16) must see "
